@@ -3,11 +3,11 @@ package main
 // Elaboration of spec expressions into SMT terms against a symbolic state.
 
 import (
-	"math"
 	"fmt"
 	"go/constant"
 	"go/token"
 	"go/types"
+	"math"
 	"math/big"
 	"sort"
 	"strings"
